@@ -24,7 +24,7 @@ SPEC = {
         {"name": "c01", "variant": "asan", "shards": (16, 16)},
     ],
     "min_evaluations": 1000000,
-    "min_classes": {"quick": 400, "thorough": 400},
+    "min_classes": {"quick": 470, "thorough": 470},
     "required_classes": [
         "w:SW:put_u8", "w:SW:put_f64r", "w:SW:pput_s64b", "w:SW:pput_f32l", "w:BW:put_u16b", "w:BW:pput_f64", "w:BW:pput_s16r",
         "r:get:u24b", "r:get:s24l", "r:peek:s48b", "r:pget:s48l", "r:pget:u48b", "r:get:f32b", "r:get:f64n", "r:pget:u64r", "r:get:s8",
